@@ -72,7 +72,11 @@ def gen_batch(rng, t, big):
     else:
         n = 1 + rng.below(16 if big else 6)
     hosts = "".join("0123456789abcdef"[rng.below(NHOST)] for _ in range(n))
-    return "%d%s%s%d:%s" % (t, mode, sev, rng.below(2), hosts)
+    b = "%d%s%s%d:%s" % (t, mode, sev, rng.below(2), hosts)
+    if mode == "N" and sev == "T" and rng.chance(1, 3):
+        # chained look-up: the callback itself submits a follow-up GAI_NOWAIT batch
+        b += "+" + rng.choice("n0TT") + "".join("0123456789abcdef"[rng.below(NHOST)] for _ in range(1 + rng.below(4)))
+    return b
 
 
 def gen_scn(rng, idx):
@@ -95,15 +99,19 @@ def gen_scn(rng, idx):
     return "scn %d %d %s" % (rng.next() % 1000000007, pert, " ".join(bs))
 
 
+def bsize(b):
+    return len(b.partition("+")[0]) - 5
+
+
 def scn_shape(line):
     w = line.split()
     bs = w[3:]
-    return (len({b[0] for b in bs}), tuple(sorted((b[1], b[2], len(b) - 5) for b in bs)))
+    return (len({b[0] for b in bs}), tuple(sorted((b[1], b[2], bsize(b), b.partition("+")[2][:1]) for b in bs)))
 
 
 def nontrivial(line):
     bs = line.split()[3:]
-    return any(b[1] == "N" and len(b) - 5 >= 2 for b in bs)
+    return any(b[1] == "N" and bsize(b) >= 2 for b in bs)
 
 
 # ------------------------------------------------------------------ running
@@ -143,7 +151,7 @@ def run_scenarios(ck, hbin, drv, lines, env, label, stats, tsan=False):
     (a broken implementation makes most scenarios hang for their full deadline)."""
     first = lines[:96]
     fails = run_scenarios1(ck, hbin, drv, first, env, label, stats, tsan)
-    if len(fails) >= 6 or len(lines) <= len(first):
+    if len([f for f in fails if kind_of(f[1]) == 'obs']) >= 6 or len(lines) <= len(first):
         if len(lines) > len(first):
             stats["skipped_after_early_failures"] = len(lines) - len(first)
         return fails
@@ -162,7 +170,7 @@ def run_scenarios1(ck, hbin, drv, lines, env, label, stats, tsan=False):
             stats["tsan_reports"] = stats.get("tsan_reports", 0) + races
             for i, scn in enumerate(ch):
                 tr = traces[i] if i < len(traces) else (scn, ["<no output>"])
-                v = verdicts[i] if i < len(verdicts) else "reject 0 harness produced no trace (%s)" % vf.san_summary(err)
+                v = verdicts[i] if i < len(verdicts) else "reject obs 0 harness produced no trace (%s)" % vf.san_summary(err)
                 stats["traces"] = stats.get("traces", 0) + 1
                 stats["events"] = stats.get("events", 0) + len(tr[1])
                 if v.startswith("ok "):
@@ -172,8 +180,8 @@ def run_scenarios1(ck, hbin, drv, lines, env, label, stats, tsan=False):
                     stats["accepted"] = stats.get("accepted", 0) + 1
                 else:
                     fails.append((scn, v, tr[1], err_excerpt(err)))
-            if tsan and races and not any(f for f in fails):
-                fails.append((ch[0], "reject 0 ThreadSanitizer report", [], err_excerpt(err)))
+            if tsan and races:
+                fails.append((ch[0], "reject obs 0 ThreadSanitizer report", [], err_excerpt(err)))
     return fails
 
 
@@ -182,11 +190,18 @@ def err_excerpt(err):
     return [re.sub(r"0x[0-9a-f]+", "0x..", l.strip())[:160] for l in keep[:14]]
 
 
+def kind_of(verdict):
+    """'obs': a property monitor failed (concrete violation); 'int': only the model could not
+    follow the trace (tie broken, property not shown violated)"""
+    m = re.match(r"reject (obs|int) ", verdict)
+    return m.group(1) if m else "obs"
+
+
 def classify(verdict):
-    m = re.match(r"reject \d+ (.*)", verdict)
+    m = re.match(r"reject (?:obs |int )?\d+ (.*)", verdict)
     msg = m.group(1) if m else verdict
     msg = re.sub(r"\d+", "#", msg)
-    return msg[:80]
+    return kind_of(verdict) + ":" + msg[:80]
 
 
 def shrink_scn(ck, hbin, drv, scn, env, cls, tries=3):
@@ -218,8 +233,13 @@ def shrink_scn(ck, hbin, drv, scn, env, cls, tries=3):
         if changed:
             continue
         for i, b in enumerate(bs):
-            if len(b) - 5 > 1:
+            if "+" in b:
+                nb = b.partition("+")[0]
+            elif len(b) - 5 > 1:
                 nb = b[:5] + b[5:5 + max(1, (len(b) - 5) // 2)]
+            else:
+                continue
+            if True:
                 budget -= 1
                 r = fails(" ".join(head + bs[:i] + [nb] + bs[i + 1:]))
                 if r:
@@ -251,7 +271,7 @@ def report_fail(ck, hbin, drv, env, label, f, shrink=True):
         small, best = shrink_scn(ck, hbin, drv, scn, env, cls)
     if best:
         verdict, trace, err = best
-    ck.report("obs", {"label": label, "ops": [small], "class": cls, "verdict": verdict,
+    ck.report(kind_of(verdict), {"label": label, "ops": [small], "class": cls, "verdict": verdict,
                       "trace": trace[-400:], "stderr": err,
                       "note": "schedules are not deterministic: --replay re-validates the recorded trace and re-runs "
                               "the scenario 20 times"})
@@ -277,7 +297,7 @@ def run(ck):
                        "each gaicb is submitted once (fresh request objects per batch)",
                        "allocation failure paths (EAI_MEMORY) are property C10's, not exercised here"]
     ck.cov["rule"] = ("a case = one scenario (1..4 submitter threads started together, 1..6 getaddrinfo_a calls each, batches of "
-                      "1..16 numeric-host requests, GAI_WAIT/GAI_NOWAIT, sevp NULL/SIGEV_NONE/SIGEV_SIGNAL/SIGEV_THREAD, "
+                      "1..16 numeric-host requests, GAI_WAIT/GAI_NOWAIT, sevp NULL/SIGEV_NONE/SIGEV_SIGNAL/SIGEV_THREAD, callbacks that submit a follow-up batch, "
                       "perturbation level 0..3) executed once under a seeded perturbed schedule in a fresh process and its event "
                       "trace validated against the model; distinct = distinct scenario shape (threads, multiset of (mode, sev, size)); "
                       "non-trivial = contains a GAI_NOWAIT batch of >= 2 items")
@@ -311,7 +331,9 @@ def run(ck):
         hist["threads"][k] = hist["threads"].get(k, 0) + 1
         for b in bs:
             hist["mode_sev"][b[1:3]] = hist["mode_sev"].get(b[1:3], 0) + 1
-            hist["size"][str(len(b) - 5)] = hist["size"].get(str(len(b) - 5), 0) + 1
+            hist["size"][str(bsize(b))] = hist["size"].get(str(bsize(b)), 0) + 1
+            if "+" in b:
+                hist["chained"] = hist.get("chained", 0) + 1
     ck.cov["scenario_histogram"] = hist
 
     # 1. ASan/UBSan build, trace validation
@@ -336,13 +358,24 @@ def run(ck):
             seen.add(c)
             report_fail(ck, hb, drv, env, label, f, shrink=shrink)
         return n
+    # concrete violations first, then (at most two classes of) model-only rejections
+    fails.sort(key=lambda f: 0 if kind_of(f[1]) == "obs" else 1)
     nrej += handle(fails, hbin, "trace-validation", stats, True, 3)
+    if ck.violations and not any(v["kind"] == "obs" for v in ck.violations):
+        # the model cannot follow the implementation but every property monitor held: the tie is
+        # broken, no violation shown.  Intensify the search for a trace on which a monitor fails.
+        extra = [gen_scn(rng, i) for i in range(ck.scale(6000, 30000))]
+        ck.count(len(extra))
+        f2 = [f for f in run_scenarios1(ck, hbin, drv, extra, env, "asan-intensified", stats) if kind_of(f[1]) == "obs"]
+        stats["intensified_scenarios"] = len(extra)
+        nrej += handle(f2, hbin, "trace-validation(intensified)", stats, True, len(seen) + 2)
     # 2. TSan build on a share of the scenarios
     nt = ck.scale(300, 5000)
     tscn = scns[:len(corpus)] + scns[len(corpus)::max(1, len(scns) // nt)][:nt]
     tf = []
-    if not ck.violations:
+    if not any(v["kind"] == "obs" for v in ck.violations):
         tf = run_scenarios(ck, htsan, drv, tscn, env, "tsan", tstats, tsan=True)
+        tf.sort(key=lambda f: 0 if kind_of(f[1]) == "obs" else 1)
         nrej += handle(tf, htsan, "tsan", tstats, False, len(seen) + 2)
     else:
         tstats["skipped"] = "trace validation already failed on the ASan build"
@@ -383,7 +416,7 @@ def replay(ck, path):
         d = subprocess.run([drv], input=text.encode(), stdout=subprocess.PIPE)
         v = d.stdout.decode().strip()
         vf.log("recorded trace (%d events): %s" % (len(r["trace"]), v))
-        m = re.match(r"reject (\d+)", v)
+        m = re.match(r"reject (?:obs |int )?(\d+)", v)
         if m:
             i = int(m.group(1)) + NHOST
             for l in r["trace"][max(0, i - 6):i + 1]:
